@@ -967,6 +967,16 @@ class Interp:
                 else:
                     groups.append((kx, [x]))
             yield [g for _, g in groups]
+        elif key == "unique_by/1":
+            self.need_array(inp, "grouped")
+            pairs = sorted(((list(A(0, x)), x) for x in inp), key=lambda p: _Key(p[0]))
+            out = []
+            lastk = _NONE
+            for kx, x in pairs:
+                if lastk is _NONE or cmp_values(lastk, kx) != 0:
+                    out.append(x)
+                    lastk = kx
+            yield out
         elif key == "unique/0":
             self.need_array(inp, "sorted")
             out = []
